@@ -43,6 +43,12 @@ CLAIMED = {
  "C03": ("pointer-provenance resolution over go/ssa (phis, id maps, cells) against the result's own collections, growth-discipline and single-writer rules, id-map key/value agreement, E1 facts at entity appends, acyclic-by-construction rule for Stop.Parent (guarded writer + bounded ancestor test shape) and loop classification of Stop.Root",
          "Referential closure and the forest property are decided as invariants of the only code that creates the pointers, hence for every archive including malformed ones: every reference is an element address of the result's own slice taken after the slice stopped growing; required references are non-nil at the append; no store to Parent can close a cycle, so Root terminates. The arithmetic inside the ancestor walk is checked in shape only.",
          "Slices handed from one phase to the next are not re-allocated afterwards (single writer phase is checked); Go's append semantics."),
+ "C08": ("dominance/post-dominance and path rules for the per-group sorts, comparator analysis of every sort.Slice closure (indexes the sorted slice, one key, <), tail-append rule for file-order collections, guard rule for the capacity pre-allocation, path-resolved coherence of the loop-carried trip cache, G6 for map-built output",
+         "Decides the ordering mechanism for every feed and every permutation of the rows: which collections are sorted, by which key, after all rows are read, for every group; which collections only ever grow at the tail; that interleaved rows cannot lose earlier rows or be attributed to the wrong trip. sort.Slice itself is trusted.",
+         "Distinct sequence numbers within a trip/shape (property's quantifier); sort.Slice sorts according to its comparator."),
+ "C09": ("exhaustive CFG path enumeration of every row loop (reject paths have no persistent effects: stores, outer map updates, effectful calls by mod-set, changed loop-carried values), slice-identity taint for the csv reader's reused record (G9), E3 bindings of the warning's fields, increment rule for the row counter",
+         "Decides inertness structurally for all ten row loops and all positions of an invalid row: a `continue` path cannot have written anything that outlives the iteration. Warnings take file, 1-based record number and a copy of the row from the file's accessors. Which inputs are classified invalid is not decided here.",
+         "Accept path = the lexically last block of the loop body; logging, warning accumulation and the csv layer's per-row state are exempt by name."),
 }
 REASON_TODO = "check under construction in this session (static rule set designed in DESIGN.md section 3, not yet implemented); not claimed until it runs clean on the unchanged tree"
 NOT_APPLICABLE = {}
